@@ -46,6 +46,10 @@ var advDeviations = []gen.Deviation{
 	{"xref-added", func(l *gen.Line) { l.Xref = "@X9@ " }},
 	{"xref-removed", func(l *gen.Line) { l.Xref = "" }},
 	{"value-on-record", func(l *gen.Line) { l.Sep2, l.Value = " ", "@I1@" }},
+	// the same tag in another letter case: a different (unregistered) tag to the grammar, but code that folds case on
+	// one side of a guard and not on the other treats it as the registered one
+	{"tag-lower-case", func(l *gen.Line) { l.Tag = strings.ToLower(l.Tag) }},
+	{"tag-mixed-case", func(l *gen.Line) { l.Tag = l.Tag[:1] + strings.ToLower(l.Tag[1:]) }},
 }
 
 type kase struct {
